@@ -444,7 +444,7 @@ for _g in ("gen_all", "gen_capture", "gen_simple", "gen_simple_no_promote", "gen
       "for every valid position with the two kings and at most one more man, and an arbitrary witness move w: legal::%s returns w exactly once iff w is legal by the rules and in that generator's class (real macro-generated glue, real ArrayVec)" % _g,
       bounded="positions with at most 3 men (the unbounded statement is the composition of C01/gen/*, C01/gen/dispatch, C01/legal/*)", timeout=1400, mem_gb=24, mem_est=12, tier="thorough")
 
-K("C17/styled/empty-chain", ["C17"], CH + "c17_styled_list_empty_chain", ["<StyledList as Display>::fmt", "<UciList as Display>::fmt", "BaseMoveChain::styled", "BaseMoveChain::uci"],
+K("C17/styled/empty-chain", ["C17"], "chain::verif_kani_c::c17_styled_list_empty_chain_v2", ["<StyledList as Display>::fmt", "<UciList as Display>::fmt", "BaseMoveChain::styled", "BaseMoveChain::uci"],
   "for the chain without moves and every number policy (incl. all 65536 custom numbers), move style, status policy and stored outcome: the styled text is exactly the status token of the STORED outcome (or nothing when hidden); the UCI list is empty", timeout=2400)
 K("C17/lists/fixed-game", ["C17"], CH + "c17_lists_fixed_game", ["<StyledList as Display>::fmt", "<UciList as Display>::fmt", "BaseMoveChain::from_uci_list", "BaseMoveChain::push_uci_list"],
   "for one fixed 3-ply game starting with Black to move and every number policy (Omit / FromBoard / Custom n), status policy and stored outcome: the SAN list is 'N... e5 N+1. Nf3 Nc6 [status]' with numbers continuing from the start position's (or the custom) number; the UCI list is the moves in order joined by single spaces, and replaying it rebuilds an equal chain",
